@@ -26,7 +26,7 @@ def main():
     for k, (c, v, i) in sorted(allv.items()):
         print('==', k, 'count', c, 'case#', i)
         print('   ', v['msg'][:400])
-        print('   cfg', json.dumps(v['case'].get('cfg')), '| sig', v['case'].get('sig'), '| step', v.get('step'))
+        print('   cfg', json.dumps(v['case'].get('cfg') or v['case'].get('backend')), v['case'].get('cached'), '| sig', v['case'].get('sig'), '| step', v.get('step'))
         ops = v['case'].get('ops') or []
         s = v.get('step') or 0
         if ops: print('   ops', json.dumps(ops[max(0, s - 6): s + 1])[:900])
